@@ -338,6 +338,93 @@ theorem mutator_sites_are_model_steps :
        some .open_, some .open_] := by
   decide
 
+/-- labels that keep the database whatever their payload (`read_labels_keep`) -/
+def Label.keeps : Label → Bool
+  | .applyQuery _ => true
+  | .maintenance => true
+  | _ => false
+
+theorem keeps_sound (l : Label) (db : Db) (h : l.keeps = true) : stepL l db = db := by
+  cases l with
+  | applyQuery texts => exact (read_labels_keep db texts).1
+  | maintenance => rfl
+  | _ => cases h
+
+/-- one step of a node's history: the call site of package store that performs it, and what it does -/
+abbrev SiteStep := (String × String × String) × Label
+
+/-- the step is one its call site can perform: the site is one of the regenerated `storeSites`, and
+the label is among those `StepKind.labels` gives the site's kind -/
+def SiteStep.permitted (sl : SiteStep) : Bool :=
+  storeSites.contains sl.1 &&
+    match siteKind sl.1 with
+    | some k => k.labels sl.2
+    | none => false
+
+def runSites (db : Db) (run : List SiteStep) : Db := run.foldl (fun d sl => stepL sl.2 d) db
+
+theorem runSites_keeps (db : Db) (run : List SiteStep) (h : ∀ sl ∈ run, sl.2.keeps = true) :
+    runSites db run = db := by
+  induction run generalizing db with
+  | nil => rfl
+  | cons sl rest ih =>
+    show runSites (stepL sl.2 db) rest = db
+    rw [keeps_sound sl.2 db (h sl (by simp))]
+    exact ih db fun x hx => h x (by simp [hx])
+
+/-- the functions of package store in which a content-changing step can happen -/
+def changingFunctions : List String :=
+  ["Process", "fsmApply", "recoverNode", "fsmRestore", "ReadFrom", "Open", "createDBOnDisk"]
+
+/-- THE LABELLED SYSTEM TIED TO THE SITES. Take any history of one node's database in which every
+step is performed by one of the call sites found in package store and does something that site's
+kind permits. If the database content at the end differs from the content at the start, then some
+step of the history (i) carries a label other than a read or maintenance label - an applied EXECUTE
+or EXECUTE_QUERY entry, a load, a snapshot restore, a boot or an open - and (ii) is performed by a
+site that is not a maintenance site (Vacuum, Optimize, Checkpoint never do it), inside one of
+`changingFunctions`. In particular nothing a read does (label `applyQuery`) changes the content. -/
+theorem content_changes_only_at_apply_restore_boot_open (db : Db) (run : List SiteStep)
+    (hp : ∀ sl ∈ run, sl.permitted = true) (hc : runSites db run ≠ db) :
+    ∃ sl ∈ run, sl.2.keeps = false ∧ siteKind sl.1 ≠ some .maintenance ∧
+      changingFunctions.contains sl.1.2.1 = true := by
+  have hex : ∃ sl ∈ run, sl.2.keeps = false := by
+    apply Classical.byContradiction
+    intro hn
+    apply hc
+    apply runSites_keeps
+    intro sl hsl
+    cases hk : sl.2.keeps
+    · exact absurd ⟨sl, hsl, hk⟩ hn
+    · rfl
+  obtain ⟨sl, hsl, hk⟩ := hex
+  refine ⟨sl, hsl, hk, ?_⟩
+  have hperm := hp sl hsl
+  simp only [SiteStep.permitted, Bool.and_eq_true] at hperm
+  obtain ⟨hmem, hlab⟩ := hperm
+  have hall : storeSites.all (fun s => siteKind s == some .maintenance || changingFunctions.contains s.2.1) = true := by
+    decide
+  have hnm : siteKind sl.1 ≠ some .maintenance := by
+    intro hm
+    rw [hm] at hlab
+    obtain ⟨s, l⟩ := sl
+    cases l <;> simp_all [StepKind.labels, Label.keeps]
+  refine ⟨hnm, ?_⟩
+  have := List.all_eq_true.mp hall sl.1 (List.contains_iff_mem.mp hmem)
+  simp only [Bool.or_eq_true, beq_iff_eq] at this
+  rcases this with h | h
+  · exact absurd h hnm
+  · exact h
+
+/-- and each kind of site does what its name says: e.g. the `db.Swap` in `fsmRestore` can only install
+a snapshot image, `s.db.Vacuum` only maintenance, the command processor's `db.Execute` only an
+EXECUTE entry -/
+example : SiteStep.permitted (("store.go", "fsmRestore", "s.db.Swap"), .restore [1]) = true ∧
+    SiteStep.permitted (("store.go", "fsmRestore", "s.db.Swap"), .applyExecute []) = false ∧
+    SiteStep.permitted (("store.go", "Vacuum", "s.db.Vacuum"), .load [1]) = false ∧
+    SiteStep.permitted (("store.go", "NoSuch", "s.db.Swap"), .restore [1]) = false ∧
+    runSites [] [(("store.go", "Vacuum", "s.db.Vacuum"), .maintenance),
+                 (("store.go", "fsmApply", "s.cmdProc.Process"), .applyQuery [[.r]])] = [] := by decide
+
 /-- serving a request is one of two labels: a query-endpoint request, and a unified request without
 read-write texts below level strong, take the READ label (which keeps the database, see
 `read_labels_keep`); any other unified request takes `applyRequest` with exactly its texts -/
